@@ -18,3 +18,9 @@ for cfg, prog in facts.load_many(list(facts.CONFIGS)).items():
 out = {k: v for k, v in out.items() if v and any(any(n for n in ns) for ns in v)}
 json.dump(out, open(os.path.join(os.path.dirname(os.path.abspath(__file__)), "sa", "ref_params.json"), "w"), indent=0, sort_keys=True)
 print(len(out), "paths")
+allp = set()
+for cfg, prog in facts.load_many(list(facts.CONFIGS)).items():
+    for f in prog.fns:
+        allp.add(f.path)
+json.dump(sorted(allp), open(os.path.join(os.path.dirname(os.path.abspath(__file__)), "sa", "ref_fns.json"), "w"), indent=0)
+print(len(allp), "function paths")
